@@ -7,10 +7,10 @@ from . import geom
 
 SPEC = dict(
     technique='Lean 4 proof (angle sets = documented products, units, orders; regenerated model) + float monitor of the extraction functions',
-    lean_modules=['SmVerif.Props.C05'],
+    lean_modules=['SmVerif.Props.C05', 'SmVerif.Props.Singular'],
     groups=['Transforms3d', 'Transforms2d'],
     expected_untranslatable=('trinterp_T', 'trinterp_T_nostart'),
-    partial=['round trips inside the singular bands and the argmax-selected pitch formulas are explored; documented axis orders, '
+    partial=['round trips inside the singular bands (not exactly on the singularity) are explored; the exactly singular configurations, every non-singular branch, documented axis orders, '
              'unit conversion and planar round trips are proved'],
     assumptions=['reconstruction is compared at 1e-6 on generated inputs only (forward model: numpy products of axis rotations)'],
 )
